@@ -62,8 +62,59 @@ Checked = Struct("Checked", NS, emb="basic.emb", fields=[
     F("plain", 2, 2, UInt()),
 ])
 
+NS2 = "corpus::more"
+
+WithBits = Struct("WithBits", NS2, emb="more.emb", fields=[
+    F("head", 0, 1, UInt()),
+    # the anonymous `bits` at 1 [+2]: the container counts towards the size, its members are hoisted as aliases
+    F("anon", 1, 2, Bytes(), observe=False),
+    F("low", 1, 2, UInt(), bits=(0, 3), contribute=False),
+    F("mid", 1, 2, Int(), bits=(3, 5), contribute=False),
+    F("flag", 1, 2, Flag(), bits=(8, 1), contribute=False),
+    F("high", 1, 2, UInt(), bits=(9, 7), contribute=False),
+    F("named", 3, 1, Bytes(), observe=False),
+    F("nib_lo", 3, 1, UInt(), bits=(0, 4), contribute=False, path=["named", "nib_lo"]),
+    F("nib_hi", 3, 1, Int(), bits=(4, 4), contribute=False, path=["named", "nib_hi"]),
+    V("combo", lambda f: f.low + f.nib_lo),
+])
+
+Param = Struct("Param", NS2, emb="more.emb", params=[("n", "::std::uint8_t")], fields=[
+    F("first", 0, 1, UInt()),
+    F("tail", lambda f: f.n, 1, UInt(), cond=lambda f: f.n > 3),
+    V("twice_n", lambda f: f.n * 2),
+])
+
+Nested = Struct("Nested", NS2, emb="more.emb", fields=[
+    F("kind", 0, 1, UInt()),
+    F("inner", 1, 3, Bytes(), observe=False),
+    F("inner_a", 1, 1, UInt(), contribute=False, path=["inner", "a"]),
+    F("inner_b", 2, 2, UInt(), order="BE", contribute=False, path=["inner", "b"]),
+    V("total", lambda f: f.inner_a + f.inner_b),
+    F("extra", 4, 1, UInt(), cond=lambda f: f.inner_a == 7),
+])
+
+Req = Struct("Req", NS2, emb="more.emb", requires=lambda f: f.lo <= f.hi, fields=[
+    F("lo", 0, 1, UInt()),
+    F("hi", 1, 1, UInt()),
+])
+
+Next = Struct("Next", NS2, emb="more.emb", fields=[
+    F("a", 0, 1, UInt()),
+    F("b", 1, 2, UInt()),        # $next after a: 0 + 1
+    F("c", 3, 1, UInt()),        # $next after b: 1 + 2
+])
+
+EnumField = Struct("EnumField", NS2, emb="more.emb", fields=[
+    F("color", 0, 2, Enum("::corpus::more::Color")),
+    F("blue", 2, 1, UInt(), cond=lambda f: f.color == 300),
+    V("is_red", lambda f: f.color == 1, boolean=True),
+])
+for _s in (WithBits, Nested):
+    _s.c20 = False      # Equals over named containers / nested structures is not specified by fields_equal yet
+
 Dyn.c20 = False       # array field: element-wise Equals needs loop invariants, not unrolling (not covered)
-ALL = {"Plain": Plain, "Cond": Cond, "Dyn": Dyn, "Virt": Virt, "Kleene": Kleene, "Absent": Absent, "Checked": Checked}
+ALL = {"Plain": Plain, "Cond": Cond, "Dyn": Dyn, "Virt": Virt, "Kleene": Kleene, "Absent": Absent, "Checked": Checked,
+       "WithBits": WithBits, "Param": Param, "Nested": Nested, "Req": Req, "Next": Next, "EnumField": EnumField}
 
 
 # ---------------------------------------------------------------------------
